@@ -438,4 +438,105 @@ func runC31(c *Ctx) {
 			c.check(strings.HasSuffix(render(a[3]), ".secureKeyNum"), "C31.secret-count", "setup uses the authenticator's secret count", cs.Pos(), render(a[3]), "setup called with "+render(a[3]))
 		}
 	}
+	runC31Extra(c, pf)
+}
+
+// runC31Extra: the nonce is a full multi-byte counter, every connection read
+// is a full read, and each end derives from the key the peer sent.
+func runC31Extra(c *Ctx, pf []*ssa.Function) {
+	const pkg = "network"
+	if f := c.mustFn(pkg, "SecureAead", "increaseNonce"); f != nil {
+		n := 0
+		for _, b := range f.Blocks {
+			for _, in := range b.Instrs {
+				st, ok := in.(*ssa.Store)
+				if !ok || !strings.HasPrefix(render(st.Addr), "&$r.nonce[") {
+					continue
+				}
+				n++
+				ia, _ := st.Addr.(*ssa.IndexAddr)
+				h := loopHeaderOf(b)
+				var phi *ssa.Phi
+				if ia != nil {
+					phi, _ = ia.Index.(*ssa.Phi)
+				}
+				okLoop := h != nil && phi != nil && phi.Block() == h
+				desc := ""
+				if okLoop {
+					for i, e := range phi.Edges {
+						if !h.Dominates(h.Preds[i]) {
+							okLoop = okLoop && render(e) == "($r.aead.NonceSize() - 1)"
+							desc += "from " + render(e)
+							continue
+						}
+						bo, isBo := e.(*ssa.BinOp)
+						k := int64(0)
+						if isBo {
+							k, _ = constInt(bo.Y)
+						}
+						okLoop = okLoop && isBo && bo.X == ssa.Value(phi) && bo.Op == token.SUB && k == 1
+					}
+				}
+				c.check(okLoop, "C31.nonce-counter", "the nonce increment runs over all nonce bytes, last byte first", st.Pos(), "loop i = NonceSize()-1 … 0 "+desc, "the increment touches "+render(st.Addr)+" outside a loop over the whole nonce: the counter has a short period and (key, nonce) pairs repeat, so replayed/reordered frames open")
+				if okLoop {
+					// the walk goes on to the next byte only on wrap-around, and the last store wins
+					_, cont := pathAvoidingEdges(f, st, func(in ssa.Instruction) bool { return in == h.Instrs[0] }, nil, wEQ("byte wrapped to 0", 0, t(1, `^\$r\.nonce\[phi\(`)))
+					c.check(!cont, "C31.nonce-counter", "carry only when the byte wrapped", st.Pos(), "continue ⇒ nonce[i] == 0", "the loop goes on to the next byte without the current one having wrapped")
+					v, isAdd := st.Val.(*ssa.BinOp)
+					k := int64(0)
+					if isAdd {
+						k, _ = constInt(v.Y)
+					}
+					c.check(isAdd && v.Op == token.ADD && k == 1 && render(v.X) == strings.TrimPrefix(render(st.Addr), "&"), "C31.nonce-counter", "each step adds one", st.Pos(), "nonce[i]++", "stores "+render(st.Val))
+				}
+			}
+		}
+		if n != 1 {
+			c.undecided("C31.nonce-counter", "increaseNonce", f.Pos(), fmt.Sprintf("expected one nonce store, found %d", n))
+		}
+	}
+	if f := c.mustFn(pkg, "SecureAead", "Read"); f != nil {
+		full := 0
+		for _, cs := range c.calls(f, func(cc *ssa.CallCommon) bool { return true }) {
+			cc := cs.Common()
+			if cc.IsInvoke() && render(cc.Value) == "$r.conn" {
+				c.violate("C31.read-contract", "connection is read only through io.ReadFull", cs.Pos(), "direct "+methodName(cc)+" on the connection: a frame delivered in several pieces is opened half-filled and rejected")
+			}
+			if calleeName(cc) == "io.ReadFull" {
+				_, a := callArgs(cc)
+				if strings.HasSuffix(render(a[0]), "$r.conn") {
+					full++
+				}
+			}
+		}
+		c.check(full == 2, "C31.read-contract", "frame header and body are each read in full", f.Pos(), "2× io.ReadFull(conn, …)", fmt.Sprintf("%d full reads of the connection", full))
+	}
+	// each end feeds the key received from the peer, with complementary roles
+	var roles []string
+	for _, f := range pf {
+		for _, cs := range c.calls(f, byCallee("(*network.Authenticator).applySecureConn")) {
+			_, a := callArgs(cs.Common())
+			param := a[len(a)-2]
+			okP := false
+			src := render(param)
+			if ld, ok := param.(*ssa.UnOp); ok {
+				if fa, ok := ld.X.(*ssa.FieldAddr); ok && fieldName(fa.X.Type(), fa.Field) == "SecureParam" {
+					for _, dc := range c.calls(f, byMethod("decodePeerPacket")) {
+						_, da := callArgs(dc.Common())
+						for _, x := range da {
+							if mi, ok := x.(*ssa.MakeInterface); ok {
+								x = mi.X
+							}
+							if x == fa.X && dominatesInstr(dc.Instr, cs.Instr) {
+								okP = true
+							}
+						}
+					}
+				}
+			}
+			c.check(okP, "C31.peer-param", fnName(f)+" derives the keys from the public key the peer sent", cs.Pos(), src+" of the decoded message", "the key agreement is fed "+src+", which is not the SecureParam of the message decoded from the peer: the two ends derive different secrets")
+			roles = append(roles, render(a[len(a)-1]))
+		}
+	}
+	c.check(len(roles) == 2 && roles[0] != roles[1], "C31.peer-param", "requester and responder take complementary default roles", token.NoPos, strings.Join(roles, " / "), "roles: "+strings.Join(roles, " / "))
 }
